@@ -246,6 +246,15 @@ pub fn cases(tier: Tier) -> Vec<GCase> {
             out.push(c);
         }
     }
+    // every case also faces the second-root adversary on each of its curve-addition rows
+    for c in out.iter_mut() {
+        let prev = c.named.clone();
+        c.named = Some(std::sync::Arc::new(move |h: &crate::e2::Honest| {
+            let mut d = prev.as_ref().map(|f| f(h)).unwrap_or_default();
+            d.extend(add_row_role_forgeries(h));
+            d
+        }));
+    }
     // non-initial states: the component was already applied to the same witnesses
     let again: Vec<GCase> = out.iter().filter(|c| !c.g.name.contains("mul_point") || tier == Tier::Thorough).map(|c| { let mut d = c.after_self_call(); d.confirm = !c.g.name.contains("mul_point"); d }).collect();
     out.extend(again);
